@@ -69,6 +69,9 @@ type ThreadProg struct {
 	Role string    `json:"role"` // writer | reader | snapshot | applier | ...
 	Txns []TxnProg `json:"txns"`
 	Arg  int       `json:"arg,omitempty"`
+	// snapshot threads: the destination is healthy even when the case carries a write fault
+	// (a second snapshotter whose calls may overlap the faulty one's)
+	Healthy bool `json:"healthy,omitempty"`
 }
 
 // TxnProg is one transaction body.
